@@ -32,7 +32,7 @@ pub fn defs() -> Vec<PropDef> {
                 }
                 Ok(())
             },
-            rule: "HIST: stateright breadth-first search. Reader model: base slices of 0..=6 distinct octets; state = the real SliceReader(s) (parent and up to two live sub-readers) next to a reference cursor; actions = read_u8/u16/u32/u64 when the precondition holds, bytes(n) for n = 0..=len+2, skip_bytes(n) and subreader(n) for n = 0..=len, on any live reader; every transition calls the real method. Writer model: state = the real VecWriter next to a Vec<u8>; actions = write_u8/u16/u32/u64, write_bytes of 0..=2 octets, write_bytes_at of 0..=2 octets at every offset 0..=len+1 and at usize::MAX; every state is compared observable by observable. Non-trivial: states at depth >= 1 (at least one operation applied); the depth is part of the state key.",
+            rule: "HIST: stateright breadth-first search. Reader model: base slices of 0..=6 distinct octets; state = the real SliceReader(s) (parent and up to two live sub-readers) next to a reference cursor; actions = read_u8/u16/u32/u64 when the precondition holds, bytes(n) for n = 0..=len+2, skip_bytes(n) and subreader(n) for n = 0..=len, on any live reader; every transition calls the real method. Writer model: state = the real VecWriter next to a Vec<u8>; actions = write_u8/u16/u32/u64, write_bytes of 0..=2 octets, write_bytes_at of 0..=2 octets at every offset 0..=len+1 and at usize::MAX; every state is compared observable by observable. In addition (plain enumeration): writers filled to every size within 9 octets of 256, 4 KiB, 64 KiB and 128 KiB by a mix of all append operations, then overwritten at every position class, and readers over a 70 000-octet slice operated at positions around the same boundaries with sub-readers nested three deep. Non-trivial: states at depth >= 1 (at least one operation applied); the depth is part of the state key.",
             bounds: |t| json!({"reader": {"base_lengths": "0..=6", "depth": if t.thorough() {7} else {6}, "live_subreaders": 2}, "writer": {"depth": if t.thorough() {6} else {5}}, "search": "BFS, 16 threads, run twice and state counts compared"}),
             assumptions: COMMON_ASSUMPTIONS,
             fd_monitor: false,
@@ -531,9 +531,228 @@ fn run_c18(ctx: &mut Ctx) {
     }
     // unique states beyond the initial ones, as deduplicated by stateright
     ctx.nontrivial_direct = ctx.states.saturating_sub(8);
+    big_writer_cases(ctx);
+    big_reader_cases(ctx);
     ctx.tally("histories");
     ctx.samples.push(json!({"kind":"reader-history","base":6,"ops":["Sub(0, 3)","U16(1)","Bytes(0, 4)","U8(1)"]}));
     ctx.samples.push(json!({"kind":"writer-history","ops":["U32","At(2, 2)","Bytes(1)","At(1, 4)","At(2, 4)"]}));
+}
+
+/// Writers that grow across 4 KiB and 64 KiB (capacity growth, 16-bit offsets): every fill size
+/// around the boundary, filled by a mix of all append operations, then every overwrite position
+/// class, then more appends; compared with a plain Vec at every step.
+fn big_writer_cases(ctx: &mut Ctx) {
+    let mut count = 0u64;
+    for boundary in [256usize, 4096, 65_536, 131_072] {
+        for fill in boundary - 9..=boundary + 9 {
+            let case = |step: &str| json!({"kind":"big-writer","fill":fill,"step":step});
+            let mut w = VecWriter::new();
+            let mut model: Vec<u8> = Vec::new();
+            // fill with a rotating mix of operations
+            let mut i = 0usize;
+            let r = guarded(|| {
+                while model.len() < fill {
+                    let left = fill - model.len();
+                    let b = (model.len() % 251) as u8;
+                    match i % 5 {
+                        0 if left >= 8 => {
+                            let v = u64::from_be_bytes([b, b ^ 1, b ^ 2, b ^ 3, b ^ 4, b ^ 5, b ^ 6, b ^ 7]);
+                            w.write_u64_be(v);
+                            model.extend_from_slice(&v.to_be_bytes());
+                        }
+                        1 if left >= 4 => {
+                            let v = u32::from_be_bytes([b, b ^ 9, b ^ 10, b ^ 11]);
+                            w.write_u32_be(v);
+                            model.extend_from_slice(&v.to_be_bytes());
+                        }
+                        2 if left >= 2 => {
+                            let v = u16::from_be_bytes([b, b ^ 0x55]);
+                            w.write_u16_be(v);
+                            model.extend_from_slice(&v.to_be_bytes());
+                        }
+                        3 if left >= 37 => {
+                            let chunk: Vec<u8> = (0..37).map(|k| b.wrapping_add(k as u8)).collect();
+                            w.write_bytes(&chunk);
+                            model.extend_from_slice(&chunk);
+                        }
+                        _ => {
+                            w.write_u8(b);
+                            model.push(b);
+                        }
+                    }
+                    i += 1;
+                }
+            });
+            count += 1;
+            if r.is_err() || w.data != model || w.len() != model.len() {
+                let at = w.data.iter().zip(model.iter()).position(|(x, y)| x != y).unwrap_or(w.data.len().min(model.len()));
+                ctx.violation("C18 writer big-fill".into(), format!("after appending {fill} octets with mixed operations the writer differs from the reference vector at octet {at} (lengths {} vs {})", w.data.len(), model.len()), fill, || case("fill"));
+                continue;
+            }
+            // overwrites around every interesting position
+            let len = model.len();
+            let mut offs: Vec<usize> = vec![0, 1, 254, 255, 256, 4094, 4095, 4096, 65_534, 65_535, 65_536, 65_537, len.saturating_sub(3), len.saturating_sub(2), len.saturating_sub(1), len, len + 1];
+            offs.sort();
+            offs.dedup();
+            for off in offs {
+                for k in 0..=3usize {
+                    let patch: Vec<u8> = (0..k).map(|j| 0xf0 ^ (j as u8)).collect();
+                    let inside = off + k <= len;
+                    let before = w.data.clone();
+                    let r = guarded(|| w.write_bytes_at(&patch, off));
+                    count += 1;
+                    if inside {
+                        model[off..off + k].copy_from_slice(&patch);
+                        if r.is_err() || w.data != model {
+                            ctx.violation("C18 writer big-overwrite".into(), format!("{len} octets written, overwrite of {k} octets at {off}: {}", if r.is_err() { "refused" } else { "buffer differs from the reference vector" }), fill, || case("overwrite"));
+                            w.data = model.clone();
+                        }
+                    } else if r.is_ok() || w.data != before {
+                        ctx.violation("C18 writer big-overwrite-not-refused".into(), format!("{len} octets written, overwrite of {k} octets at {off} must be refused and leave the buffer unchanged"), fill, || case("overwrite"));
+                        w.data = model.clone();
+                    }
+                }
+            }
+            // and the writer still appends correctly afterwards
+            let r = guarded(|| {
+                w.write_u32_be(0xdeadbeef);
+                w.write_bytes(&[1, 2, 3]);
+                w.write_u8(9);
+            });
+            model.extend_from_slice(&[0xde, 0xad, 0xbe, 0xef, 1, 2, 3, 9]);
+            count += 1;
+            if r.is_err() || w.data != model {
+                ctx.violation("C18 writer big-append-after-overwrite".into(), format!("appends after overwrites on a {len}-octet writer differ from the reference vector"), fill, || case("append"));
+            }
+        }
+    }
+    ctx.states += count;
+    ctx.transitions += count;
+    ctx.executions += count;
+    ctx.nontrivial_direct += count;
+    ctx.extra.insert("big_writer_cases".into(), json!(count));
+}
+
+/// Readers over slices that cross 256 / 64 KiB: reads, sub-readers and slices at positions
+/// around the boundaries, nested sub-readers three deep.
+fn big_reader_cases(ctx: &mut Ctx) {
+    let base: Vec<u8> = (0..70_000usize).map(|i| ((i * 31 + 7) % 251) as u8).collect();
+    let base: &'static [u8] = Box::leak(base.into_boxed_slice());
+    let mut count = 0u64;
+    for pos in [0usize, 1, 250, 254, 255, 256, 257, 4095, 4096, 65_530, 65_534, 65_535, 65_536, 65_537, 69_990] {
+        for op in 0..8usize {
+            let case = || json!({"kind":"big-reader","pos":pos,"op":op});
+            let r = guarded(|| {
+                let mut rd = SliceReader::from(base);
+                rd.skip_bytes(pos);
+                let mut cur = pos;
+                let mut problems: Vec<String> = Vec::new();
+                let needed = [8usize, 4, 300, 600, 0, 0, 0, 0][op];
+                if base.len() - cur < needed {
+                    return problems; // precondition of the operation does not hold here
+                }
+                match op {
+                    0 => {
+                        let v = unsafe { rd.read_u64_be_unchecked() };
+                        if v != be(&base[cur..cur + 8]) {
+                            problems.push(format!("read_u64 at {cur}"));
+                        }
+                        cur += 8;
+                    }
+                    1 => {
+                        let v = unsafe { rd.read_u32_be_unchecked() } as u64;
+                        if v != be(&base[cur..cur + 4]) {
+                            problems.push(format!("read_u32 at {cur}"));
+                        }
+                        cur += 4;
+                    }
+                    2 => {
+                        let b = rd.bytes(300).map(|x| x.to_vec());
+                        if b.as_deref() != Some(&base[cur..cur + 300]) {
+                            problems.push(format!("bytes(300) at {cur}"));
+                        }
+                        cur += 300;
+                    }
+                    3 => {
+                        // nested sub-readers: 600 -> 300 (after skipping 5) -> 100
+                        let mut s1 = rd.subreader(600);
+                        s1.skip_bytes(5);
+                        let mut s2 = s1.subreader(300);
+                        let s3 = s2.subreader(100);
+                        let mut s3c = s3;
+                        if s3c.bytes(100).map(|x| x.to_vec()).as_deref() != Some(&base[cur + 5..cur + 105]) {
+                            problems.push("innermost sub-reader content".into());
+                        }
+                        if Reader::len(&s2) != 200 || Reader::len(&s1) != 295 {
+                            problems.push(format!("nested lengths {} {}", Reader::len(&s2), Reader::len(&s1)));
+                        }
+                        let v = unsafe { s2.read_u16_be_unchecked() } as u64;
+                        if v != be(&base[cur + 105..cur + 107]) {
+                            problems.push("read on the middle sub-reader after carving the inner one".into());
+                        }
+                        let v = unsafe { s1.read_u8_unchecked() } as u64;
+                        if v != base[cur + 305] as u64 {
+                            problems.push("read on the outer sub-reader after the middle one".into());
+                        }
+                        cur += 600;
+                    }
+                    4 => {
+                        // zero-length requests leave everything in place
+                        let z = rd.bytes(0).map(|x| x.len());
+                        rd.skip_bytes(0);
+                        let s = rd.subreader(0);
+                        if z != Some(0) || !Reader::is_empty(&s) || Reader::len(&s) != 0 {
+                            problems.push("zero-length request".into());
+                        }
+                    }
+                    5 => {
+                        // exactly everything that remains, then empty
+                        let left = base.len() - cur;
+                        let b = rd.bytes(left).map(|x| x.len());
+                        if b != Some(left) || !Reader::is_empty(&rd) {
+                            problems.push("bytes(all remaining)".into());
+                        }
+                        cur = base.len();
+                    }
+                    6 => {
+                        // refused request keeps the reader intact
+                        let left = base.len() - cur;
+                        if rd.bytes(left + 1).is_some() || Reader::len(&rd) != left {
+                            problems.push("bytes(remaining + 1)".into());
+                        }
+                    }
+                    _ => {
+                        let left = base.len() - cur;
+                        let s = rd.subreader(left);
+                        if Reader::len(&s) != left || !Reader::is_empty(&rd) {
+                            problems.push("subreader(all remaining)".into());
+                        }
+                        cur = base.len();
+                    }
+                }
+                if Reader::len(&rd) != base.len() - cur {
+                    problems.push(format!("position afterwards: {} octets left, expected {}", Reader::len(&rd), base.len() - cur));
+                } else if cur < base.len() {
+                    let v = unsafe { rd.read_u8_unchecked() };
+                    if v != base[cur] {
+                        problems.push(format!("next octet after the operation is {v:#x}, expected {:#x}", base[cur]));
+                    }
+                }
+                problems
+            });
+            count += 1;
+            match r {
+                Ok(p) if p.is_empty() => (),
+                Ok(p) => ctx.violation(format!("C18 reader big op{op}"), format!("70000-octet slice, position {pos}: {}", p.join("; ")), pos, case),
+                Err(p) => ctx.violation(format!("C18 reader big op{op} panics"), format!("position {pos}: panic at {}: {}", p.0, p.1), pos, case),
+            }
+        }
+    }
+    ctx.states += count;
+    ctx.transitions += count;
+    ctx.executions += count;
+    ctx.nontrivial_direct += count;
+    ctx.extra.insert("big_reader_cases".into(), json!(count));
 }
 
 fn parse_rop(s: &str) -> Option<ROp> {
@@ -602,6 +821,11 @@ fn replay_c18(ctx: &mut Ctx, v: &Value) {
                     return;
                 }
             }
+        }
+        Some("big-writer") | Some("big-reader") => {
+            // cheap enough to re-run as a whole
+            big_writer_cases(ctx);
+            big_reader_cases(ctx);
         }
         _ => {
             eprintln!("machinery: bad C18 replay case");
@@ -919,6 +1143,38 @@ fn far_positions(ctx: &mut Ctx, alone: &[Vec<u8>]) {
             count += 2;
         }
     }
+    // every AVP value of the list menu (all 39 kinds, optional parts, hidden): one step at real
+    // prefixes of 1, 7, 300 octets and at every far position
+    for (k, a) in vgen::list_menu().iter().enumerate() {
+        let c = bridge::avp_to_crate(a).unwrap();
+        let mut alone_w = VecWriter::new();
+        if guarded(|| c.write(&mut alone_w)).is_err() {
+            continue;
+        }
+        let case = |base: usize, real: bool| json!({"kind":"far-position-avp","menu_index":k,"base":base,"real":real});
+        for base in [1usize, 7, 300] {
+            let mut w = VecWriter { data: vec![0x5a; base] };
+            let r = guarded(|| c.write(&mut w));
+            count += 1;
+            if r.is_err() || w.data[..base].iter().any(|b| *b != 0x5a) || w.data[base..] != alone_w.data[..] {
+                ctx.violation(format!("C09 avp-kind-at-prefix attr{}", a.attr()), format!("{a:?} encoded into a writer holding {base} octets: earlier content changed or appended octets differ from the encoding into an empty writer"), base, || case(base, true));
+            }
+        }
+        for base in FAR_BASES {
+            let mut w = RecordingWriter::at_position(base);
+            let r = guarded(|| c.write(&mut w));
+            count += 1;
+            let bad_overwrite = w.out_of_range.first().or_else(|| w.overwrites.iter().find(|o| o.offset < base)).cloned();
+            if r.is_err() || bad_overwrite.is_some() || w.data != alone_w.data {
+                ctx.violation(
+                    format!("C09 avp-kind-at-far-position attr{}", a.attr()),
+                    format!("{a:?} encoded at writer position {base}: {}", match bad_overwrite { Some(o) => format!("positional overwrite at {} outside the value", o.offset), None => "appended octets differ / panic".into() }),
+                    k,
+                    || case(base, false),
+                );
+            }
+        }
+    }
     ctx.states += count;
     ctx.transitions += count;
     ctx.executions += count;
@@ -928,6 +1184,26 @@ fn far_positions(ctx: &mut Ctx, alone: &[Vec<u8>]) {
 }
 
 fn replay_c09(ctx: &mut Ctx, v: &Value) {
+    if v["kind"].as_str() == Some("far-position-avp") {
+        let k = v["menu_index"].as_u64().unwrap_or(0) as usize;
+        let base = v["base"].as_u64().unwrap_or(0) as usize;
+        let menu = vgen::list_menu();
+        let a = &menu[k % menu.len()];
+        let c = bridge::avp_to_crate(a).unwrap();
+        let mut alone_w = VecWriter::new();
+        c.write(&mut alone_w);
+        let ok = if v["real"].as_bool().unwrap_or(false) {
+            let mut w = VecWriter { data: vec![0x5a; base] };
+            guarded(|| c.write(&mut w)).is_ok() && w.data[..base].iter().all(|b| *b == 0x5a) && w.data[base..] == alone_w.data[..]
+        } else {
+            let mut w = RecordingWriter::at_position(base);
+            guarded(|| c.write(&mut w)).is_ok() && w.out_of_range.is_empty() && w.overwrites.iter().all(|o| o.offset >= base) && w.data == alone_w.data
+        };
+        if !ok {
+            ctx.violation("C09 avp-kind replay".into(), format!("{a:?} at position {base}"), 0, || v.clone());
+        }
+        return;
+    }
     if v["kind"].as_str() == Some("far-position") {
         let alone = match alone_encodings() {
             Ok(a) => a,
